@@ -20,9 +20,9 @@ POOL = {
                ("float", 3, ["1.5", "2.5", "3.5"]), ("float", 0, ["4.5"]), ("complex", 2, ["1+2j", "3j"]),
                ("float", 2, ["0.25", "1e+300"]), ("float", 1, ["2.5"])],
     "int1": [("int", 0, ["3"]), ("bool", 0, ["1"]), ("float", 0, ["2.5"]), ("int", 2, ["1", "2"]), ("str", 0, ["s:no"]),
-             ("int", 0, ["-7"]), ("complex", 0, ["2j"])],
+             ("int", 0, ["-7"]), ("complex", 0, ["2j"]), ("float", 0, ["5"]), ("complex", 0, ["5"]), ("float", 0, ["0"]), ("int", 0, ["5"])],     # values EQUAL to the default, of a narrower / wider type
     "str1": [("str", 0, ["s:hello"]), ("str", 0, ["s:"]), ("int", 0, ["3"]), ("bool", 0, ["1"]), ("str", 0, ["s:a b"])],
-    "bool1": [("bool", 0, ["1"]), ("int", 0, ["1"]), ("float", 0, ["1"]), ("bool", 0, ["0"])],
+    "bool1": [("bool", 0, ["1"]), ("int", 0, ["1"]), ("float", 0, ["1"]), ("bool", 0, ["0"]), ("int", 0, ["0"]), ("float", 0, ["0"])],
     "complex3": [("complex", 3, ["1+2j", "-1j", "0"]), ("float", 3, ["1.5", "2", "3"]), ("complex", 2, ["1+2j", "3j"]),
                  ("complex", 0, ["1j"])],
 }
